@@ -50,6 +50,7 @@ class Module:
         self.name, self.path, self.text = name, path, text
         self.tree = ast.parse(text, filename=path)
         set_parents(self.tree)
+        self.tree._module = self
         self.env = {}
         self.functions = {}  # qualname -> FunctionDef
         self.classes = {}  # qualname -> ClassDef
